@@ -523,6 +523,44 @@ func judge(f *fixture, c C20Case) ev.Outcome {
 		o.Classes = append(o.Classes, "prefix_related_name")
 	}
 	o.Classes = append(o.Classes, nameLenClass(c.Ctr))
+	if a := app[famMnt]; a != nil && a.Ill == "" {
+		optSep, fieldSep := false, false
+		for _, m := range a.Mounts {
+			for _, op := range m.Options {
+				if hasSeparator(op) {
+					optSep = true
+				}
+				if strings.Contains(op, ",") {
+					o.Classes = append(o.Classes, "strings:mount_option_with_comma")
+				}
+			}
+			if hasSeparator(m.Source) || hasSeparator(m.Type) || hasSeparator(m.Destination) {
+				fieldSep = true
+			}
+		}
+		if optSep {
+			o.Classes = append(o.Classes, "strings:mount_option_with_separator")
+		}
+		if fieldSep {
+			o.Classes = append(o.Classes, "strings:mount_field_with_separator")
+		}
+	}
+	if a := app[famDev]; a != nil && a.Ill == "" {
+		for _, d := range a.Devices {
+			if hasSeparator(strings.TrimPrefix(d.Path, "/dev/")) || hasSeparator(d.Type) {
+				o.Classes = append(o.Classes, "strings:device_field_with_separator")
+				break
+			}
+		}
+	}
+	if a := app[famCDI]; a != nil && a.Ill == "" {
+		for _, n := range a.CDI {
+			if strings.ContainsAny(strings.Replace(n, "=", "", 1), ",:= \"'") {
+				o.Classes = append(o.Classes, "strings:cdi_name_with_separator")
+				break
+			}
+		}
+	}
 	for i := range c.Anns {
 		a := &c.Anns[i]
 		if a.Scope == scopeCtr && a.Target != c.Ctr && (atCut(a.Target, c.Ctr) || atCut(c.Ctr, a.Target)) {
@@ -903,6 +941,7 @@ func TestExh_C20(t *testing.T) {
 	}
 	r.SetExtra("exhaustive_key_presence_combinations", n)
 	r.SetExtra("name_length_sweep_requests", sweepNameLengths(t, r))
+	r.SetExtra("separator_sweep_requests", sweepSeparators(t, r))
 	r.SetExtra("exhaustive", false) // only the key-presence sub-domain is enumerated
 	r.SetExtra("exhaustive_subdomain", "per plugin option set (6) and key family (4), all 32 presence combinations of {container key for this container, for a prefix-named container, for an extension-named container, pod key, bare key}")
 }
@@ -971,6 +1010,106 @@ func sweepNameLengths(t *testing.T, r *ev.Recorder) int {
 			}
 			for _, sib := range rest { // untrimmed cuts and other relatives
 				run(fam, sib, "sibling", false)
+			}
+		}
+	}
+	return n
+}
+
+// cycleChooser makes the writer go through its alternatives in turn (deterministic).
+type cycleChooser struct{ n *int }
+
+func (c cycleChooser) intn(n int, _ string) int {
+	if n <= 1 {
+		return 0
+	}
+	*c.n++
+	return *c.n % n
+}
+
+// sweepSeparators: directed cases for the string-valued parts of the annotations. Strings
+// with ',', ':', '=', ' ', '/', quotes (and the empty string) must reach the adjustment
+// exactly as annotated, element by element; rlimit type names with separators are not Linux
+// resource limit names and must fail the request. Every scope that can be the applicable
+// one, every writer style, default plugin options.
+func sweepSeparators(t *testing.T, r *ev.Recorder) int {
+	const ctr = "c0"
+	n, turn := 0, 0
+	run := func(c C20Case) {
+		raw := ev.Snapshot(c)
+		r.Journal(raw)
+		o := runC20(c)
+		r.ClearJournal()
+		o.Classes = append(o.Classes, "sweep:separators")
+		r.Record(raw, o)
+		if o.Fail != "" {
+			t.Fatalf("C20: %s", o.Fail)
+		}
+		n++
+	}
+	text := func(a *Ann) {
+		a.Text = (&renderer{ch: cycleChooser{&turn}, style: a.Style}).render(a.node())
+	}
+	u32 := func(v uint32) *uint32 { return &v }
+	mounts := [][]Mnt{
+		{{Source: "/home", Destination: "/host-home", Type: "bind", Options: []string{"bind", `context="system_u:object_r:container_file_t:s0:c100,c200"`, "ro"}}},
+		{{Source: "tmpfs", Destination: "/scratch", Type: "tmpfs", Options: []string{"ro,", ",", "bind,ro", "", "size=64k,mode=1777"}}},
+		{{Source: "/a,b", Destination: "/mnt/a,b", Type: "bind,ro", Options: []string{"uid=0,gid=0"}},
+			{Source: "a:b=c d", Destination: "/mnt/k=v w", Type: `"q"`, Options: []string{"lowerdir=/a:/b", "x y", `"quoted"`, "'"}}},
+		{{Source: ",", Destination: "/mnt/,", Type: ",", Options: []string{","}}},
+		{{Source: "", Destination: "/mnt/empty", Type: "", Options: []string{"", ""}}},
+	}
+	devices := [][]Dev{
+		{{Path: "/dev/a,b", Type: "c", Major: 1, Minor: 3}, {Path: "/dev/k=v", Type: "b", Major: 8, Minor: 0, FileMode: u32(0o660)}},
+		{{Path: "/dev/x y", Type: "c,b", Major: 1, Minor: 5}, {Path: `/dev/q"r`, Type: "c:b", Major: 1, Minor: 7, UID: u32(1000), GID: u32(1000)}},
+		{{Path: "/dev/bus/usb/001,002", Type: "c b", Major: 189, Minor: 1}, {Path: "/dev/it's", Type: `"c"`, Major: 10, Minor: 200}, {Path: "/dev/c:0:1", Type: "c=b", Major: 4, Minor: 64}},
+	}
+	cdis := [][]string{
+		{"vendor.com/class=a,b", "vendor.com/class=a:b"},
+		{"vendor.com/class=a b", `vendor.com/class="q"`, "vendor.com/a/b=c=d", "vendor.com/class=it's", ","},
+	}
+	for _, scope := range []string{scopeCtr, scopePod, scopeBare} {
+		target := ""
+		if scope == scopeCtr {
+			target = ctr
+		}
+		for _, style := range []string{"block", "flow", "json"} {
+			for rep := 0; rep < 3; rep++ { // three turns of the quoting alternatives
+				for _, m := range mounts {
+					a := Ann{Family: famMnt, Scope: scope, Target: target, Style: style, Mounts: m}
+					text(&a)
+					run(C20Case{Ctr: ctr, Anns: []Ann{a}})
+				}
+				for _, d := range devices {
+					a := Ann{Family: famDev, Scope: scope, Target: target, Style: style, Devices: d}
+					text(&a)
+					run(C20Case{Ctr: ctr, Anns: []Ann{a}})
+				}
+				for _, l := range cdis {
+					a := Ann{Family: famCDI, Scope: scope, Target: target, Style: style, CDI: l}
+					text(&a)
+					run(C20Case{Ctr: ctr, Anns: []Ann{a}})
+				}
+			}
+		}
+	}
+	// rlimit type names: every spelling of a valid name is accepted next to a neighbour, a name
+	// with a separator in it is unknown
+	for _, style := range []string{"block", "flow", "json"} {
+		for _, bad := range unknownRlimits {
+			a := Ann{Family: famRlim, Scope: scopeCtr, Target: ctr, Style: style, Ill: "unknown_type",
+				Rlimits: []Rlim{{Type: "RLIMIT_CORE", Hard: u64p(10), Soft: u64p(5)}, {Type: bad, Hard: u64p(4096), Soft: u64p(1024)}}}
+			text(&a)
+			a.Rlimits = nil
+			run(C20Case{Ctr: ctr, Anns: []Ann{a}})
+		}
+		for _, pre := range rlimPrefixes {
+			for i, base := range rlimitNames {
+				next := strings.ToLower(rlimitNames[(i+1)%len(rlimitNames)])
+				a := Ann{Family: famRlim, Scope: scopeCtr, Target: ctr, Style: style,
+					Rlimits: []Rlim{{Type: pre + base, Hard: u64p(4096), Soft: u64p(1024)}, {Type: strings.ToLower(pre) + next, Hard: u64p(1)}}}
+				text(&a)
+				run(C20Case{Ctr: ctr, Anns: []Ann{a}})
 			}
 		}
 	}
